@@ -198,9 +198,16 @@ def cell_value(fmt, a, b, s):
     """(complex value as C would compute it up to rounding, exact?)"""
     fa, fb, fs = xfloat(a), xfloat(b), xfloat(s)
     if fmt == "RI":
-        v = complex(fa, fb)
+        # v0 + I * v1 in C: I * v1 = (0 * v1, v1), so a non-finite imaginary part makes the real part a NaN
+        v = complex(fa if math.isfinite(fb) else float("nan"), fb)
     else:
-        mag = fa if fmt == "MA" else (10.0 ** (fa / 20.0) if not math.isinf(fa) else (float("inf") if fa > 0 else 0.0))
+        if fmt == "MA":
+            mag = fa
+        else:
+            try:
+                mag = 10.0 ** (fa / 20.0) if not math.isinf(fa) else (float("inf") if fa > 0 else 0.0)
+            except OverflowError:
+                mag = float("inf")
         if fb != fb or math.isinf(fb) or mag != mag:
             v = complex(float("nan"), float("nan"))
         elif math.isinf(mag):
@@ -315,7 +322,7 @@ def npd_cell(form, a, b, f):
     fa, fb = xfloat(a), xfloat(b)
     try:
         if form == "RI":
-            return complex(fa, fb), True
+            return complex(fa if math.isfinite(fb) else float("nan"), fb), True
         if form == "MA":
             return fa * cmath.exp(1j * math.pi / 180.0 * fb), False
         if form == "DB":
